@@ -66,7 +66,7 @@ static CASE_STARTED_MS: std::sync::atomic::AtomicU64 = std::sync::atomic::Atomic
 static CASE_NAME: std::sync::Mutex<String> = std::sync::Mutex::new(String::new());
 
 /// A helper thread that ends the process (exit code 124) when one case runs for longer than
-/// JBV_WATCHDOG_S seconds (default 60; thousands of times a normal case). This is not a
+/// JBV_WATCHDOG_S seconds of CPU time (default 60; thousands of times a normal case). This is not a
 /// verdict: the orchestrator re-runs that case alone with a much larger limit first.
 pub fn start_case_watchdog() {
     let limit_s: u64 = std::env::var("JBV_WATCHDOG_S").ok().and_then(|s| s.parse().ok()).unwrap_or(60);
@@ -75,16 +75,49 @@ pub fn start_case_watchdog() {
         std::thread::sleep(std::time::Duration::from_millis(500));
         let started = CASE_STARTED_MS.load(std::sync::atomic::Ordering::Relaxed);
         if started != 0 {
+            // the limit is on the CPU time this process has burnt inside the case (a busy
+            // machine must not look like a hang); wall-clock time only counts at 10x the limit
+            // (a case that neither finishes nor computes)
+            let cpu_started = CASE_STARTED_CPU_MS.load(std::sync::atomic::Ordering::Relaxed);
+            let cpu_now = process_cpu_ms();
             let now = t0.elapsed().as_millis() as u64 + 1;
-            if now.saturating_sub(started) > limit_s * 1000 {
+            let cpu_over = cpu_now != 0 && cpu_started != 0 && cpu_now.saturating_sub(cpu_started) > limit_s * 1000;
+            let wall_limit = if cpu_now == 0 { limit_s } else { limit_s * 10 };
+            let wall_over = now.saturating_sub(started) > wall_limit * 1000;
+            // (re-read: the case may have ended while we were measuring)
+            if (cpu_over || wall_over) && CASE_STARTED_MS.load(std::sync::atomic::Ordering::Relaxed) == started {
                 let name = CASE_NAME.lock().map(|s| s.clone()).unwrap_or_default();
-                eprintln!("WATCHDOG: case {} has been running for more than {} s; ending this process", name, limit_s);
+                eprintln!(
+                    "WATCHDOG: case {} has used more than {} s of {}; ending this process",
+                    name,
+                    if cpu_over { limit_s } else { wall_limit },
+                    if cpu_over { "CPU time" } else { "wall-clock time" }
+                );
                 std::process::exit(124);
             }
         }
     });
     WATCHDOG_T0.get_or_init(|| t0);
 }
+
+/// CPU time consumed by this process so far, in ms (+1); 0 when it cannot be measured
+fn process_cpu_ms() -> u64 {
+    #[cfg(miri)]
+    {
+        0
+    }
+    #[cfg(not(miri))]
+    {
+        let mut ts = libc::timespec { tv_sec: 0, tv_nsec: 0 };
+        // SAFETY: plain libc call writing into a local timespec
+        let rc = unsafe { libc::clock_gettime(libc::CLOCK_PROCESS_CPUTIME_ID, &mut ts) };
+        if rc != 0 {
+            return 0;
+        }
+        ts.tv_sec as u64 * 1000 + ts.tv_nsec as u64 / 1_000_000 + 1
+    }
+}
+static CASE_STARTED_CPU_MS: std::sync::atomic::AtomicU64 = std::sync::atomic::AtomicU64::new(0);
 static WATCHDOG_T0: std::sync::OnceLock<std::time::Instant> = std::sync::OnceLock::new();
 
 fn case_begin(name: &str) {
@@ -92,6 +125,7 @@ fn case_begin(name: &str) {
         if let Ok(mut n) = CASE_NAME.lock() {
             *n = name.to_string();
         }
+        CASE_STARTED_CPU_MS.store(process_cpu_ms(), std::sync::atomic::Ordering::Relaxed);
         CASE_STARTED_MS.store(t0.elapsed().as_millis() as u64 + 1, std::sync::atomic::Ordering::Relaxed);
     }
 }
